@@ -18,3 +18,21 @@ Theorem c20_list : forall (ss : list sel) (p : list anc), Forall wf ss ->
   (existsb (fun s => do_matches (flatten s) p) ss = true <-> exists s, In s ss /\ matches s p).
 Proof. exact SelectorProof.c20_list. Qed.
 Print Assumptions c20_list.
+
+(* ---------- selector parsing (Proofs/CssRoundTrip.v): parse (print s) = s for every well-formed selector ---------- *)
+From H2T Require Import Base Tagged Wrap Css Dom CssParse Proofs.CssTotal Proofs.CssRoundTrip.
+Theorem parse_selector_rt :
+  forall (s : selector) (rest : text),
+       wf_selector s = true ->
+       (pseudo_el s = None -> nf selcont rest) -> parse_selector (print_selector s ++ rest) = POk s rest.
+Proof. exact CssRoundTrip.parse_selector_rt. Qed.
+Print Assumptions parse_selector_rt.
+
+Theorem parse_selector_rt_ws :
+  forall (s : selector) (w rest : text),
+       wf_selector s = true ->
+       pseudo_el s = None ->
+       wsm w -> w <> [] -> nf selcont rest -> parse_selector (print_selector s ++ w ++ rest) = POk s rest.
+Proof. exact CssRoundTrip.parse_selector_rt_ws. Qed.
+Print Assumptions parse_selector_rt_ws.
+
